@@ -71,7 +71,7 @@ def inline_unknown(bodies, known, log=None):
     unknown = {}
     for b in bodies:
         k = _strip(b["path"])
-        if b["kind"] in ("Fn", "AssocFn") and k not in known and not b.get("coroutine") and "::{closure" not in k \
+        if b["kind"] in ("Fn", "AssocFn") and k not in known and not b.get("coroutine") \
                 and "::promoted[" not in k and "::{constant" not in k and "{impl#" not in k.split("::")[-1]:
             if _returns_coroutine(b):
                 continue
@@ -110,7 +110,7 @@ def inline_unknown(bodies, known, log=None):
                 i += 1
                 continue
             g = done[tgt]
-            if len(t["args"]) != g["arg_count"]:
+            if len(t["args"]) != g["arg_count"] or len(b["blocks"]) + len(g["blocks"]) > 4000:
                 i += 1
                 continue
             _splice(b, i, g)
